@@ -527,6 +527,8 @@ class Bits:
         if isinstance(s, io.BytesIO):
             if length is None:
                 length = s.seek(0, 2) * 8 - offset
+            if offset < 0 or length < 0:
+                raise bitstring.CreationError("BytesIO object is not long enough for specified length and offset.")
             byteoffset, offset = divmod(offset, 8)
             bytelength = (length + byteoffset * 8 + offset + 7) // 8 - byteoffset
             if length + byteoffset * 8 + offset > s.seek(0, 2) * 8:
@@ -549,6 +551,8 @@ class Bits:
         with open(pathlib.Path(filename), 'rb') as source:
             if offset is None:
                 offset = 0
+            if offset < 0:
+                raise bitstring.CreationError(f"Can't use a negative offset of {offset} bits.")
             m = mmap.mmap(source.fileno(), 0, access=mmap.ACCESS_READ)
             if offset == 0:
                 self._filename = source.name
@@ -561,6 +565,8 @@ class Bits:
                         raise bitstring.CreationError(f"The offset of {offset} bits is greater than the file length ({len(temp)} bits).")
                     self._bitstore = temp.getslice(offset, None)
                 else:
+                    if length < 0:
+                        raise bitstring.CreationError("Can't create bitstring with a negative length.")
                     self._bitstore = temp.getslice(offset, offset + length)
                     if len(self) != length:
                         raise bitstring.CreationError(f"Can't use a length of {length} bits and an offset of {offset} bits as file length is only {len(temp)} bits.")
@@ -568,12 +574,12 @@ class Bits:
     def _setbitarray(self, ba: bitarray.bitarray, length: Optional[int], offset: Optional[int]) -> None:
         if offset is None:
             offset = 0
-        if offset > len(ba):
+        if offset < 0 or offset > len(ba):
             raise bitstring.CreationError(f"Offset of {offset} too large for bitarray of length {len(ba)}.")
         if length is None:
             self._bitstore = BitStore(ba[offset:])
         else:
-            if offset + length > len(ba):
+            if length < 0 or offset + length > len(ba):
                 raise bitstring.CreationError(
                     f"Offset of {offset} and length of {length} too large for bitarray of length {len(ba)}.")
             self._bitstore = BitStore(ba[offset: offset + length])
@@ -623,9 +629,8 @@ class Bits:
         if length is None:
             # Use to the end of the data
             length = len(data) * 8 - offset
-        else:
-            if length + offset > len(data) * 8:
-                raise bitstring.CreationError(f"Not enough data present. Need {length + offset} bits, have {len(data) * 8}.")
+        if offset < 0 or length < 0 or length + offset > len(data) * 8:
+            raise bitstring.CreationError(f"Not enough data present. Need {length + offset} bits, have {len(data) * 8}.")
         self._bitstore = BitStore.frombytes(data).getslice_msb0(offset, offset + length)
 
     def _getbytes(self) -> bytes:
